@@ -257,6 +257,33 @@ var oracleC18 = oracle{post: func(c *checker) {
 				foreign = append(foreign, l)
 			}
 		}
+		// headers removed because they, or an ancestor, were marked invalid: whatever else is
+		// reported about them, a proof must not place them on the best chain
+		for _, l := range w.Removed {
+			u := hdr.Get(l)
+			if w.Tree.Get(hdr.RH(u.Hash)) != nil {
+				continue // accepted again after unmarking
+			}
+			base := modelProof(u.TxIDs, 0)
+			for _, withHeader := range []bool{true, false} {
+				q := copyProof(base)
+				if withHeader {
+					h := u.Header.Copy()
+					q.BlockHeader = &h
+				} else {
+					h := u.Hash
+					q.BlockHash = &h
+				}
+				height, best, err := w.Repo.VerifyMerkleProof(w.Ctx, q)
+				c.n++
+				c.count("proofs_removed_header", 1)
+				if err == nil && best {
+					c.fail("proof-for-removed-header-in-best-chain", fmt.Sprintf("with-header-%t", withHeader),
+						fmt.Sprintf("proof for tx 0 of %s, removed as invalid (or built on an invalid header), verified as (%d, on the best chain)", l, height))
+					return nil
+				}
+			}
+		}
 		for _, l := range foreign {
 			u := hdr.Get(l)
 			base := modelProof(u.TxIDs, 0)
